@@ -26,7 +26,8 @@ RULE = ('family = one dataset src.map(u0).map(fresh).cache(keep_mem_free=K) (fre
         'call counter per index, memory state. Non-trivial = at least one access hit '
         'an already frozen example or the memory fault fired; distinct = distinct '
         '(dataset, history).')
-PROBES = ['cache_hit_after_threshold', 'cache_miss_after_threshold',
+PROBES = ['held_iterator_met_entry_cached_meanwhile', 'second_cache_created_after_first_crossed',
+          'cache_hit_after_threshold', 'cache_miss_after_threshold',
           'negative_index_hits_positive_entry', 'key_hits_index_entry',
           'copy_shares_cache', 'prefetch_worker_filled_cache',
           'threshold_crossed_inside_prefetch_iteration', 'mutation_then_reread']
@@ -69,7 +70,7 @@ def gen_ops(rng, n, dict_source, k, flap):
     ops = []
     kinds = ['get', 'get', 'get', 'getneg', 'slice_iter', 'iter', 'iter_k',
              'copy_get', 'copy_iter', 'fcopy_get', 'prefetch1', 'prefetchw',
-             'mutate', 'mutate']
+             'mutate', 'mutate', 'it_open', 'it_next', 'it_next', 'it_next']
     if dict_source:
         kinds += ['key', 'key', 'items_iter']
     for _ in range(k):
@@ -81,6 +82,8 @@ def gen_ops(rng, n, dict_source, k, flap):
             ops.append([op, [a, rng.randrange(a, n + 1)]])
         elif op == 'iter_k':
             ops.append([op, rng.randrange(0, n + 1)])
+        elif op == 'it_open':
+            ops.append([op, rng.choice(['ds', 'ds', 'copy', 'items'])])
         elif op == 'prefetch1':
             ops.append([op, [1, rng.randrange(1, 4), rng.randrange(1 << 20),
                              rng.choice([None, None, rng.randrange(0, n + 1)])]])
@@ -97,6 +100,11 @@ def gen_ops(rng, n, dict_source, k, flap):
         if flap:
             pos2 = rng.randrange(pos + 1, len(ops) + 1)
             ops.insert(pos2, ['mem_ok', None])
+        elif rng.random() < 0.35:
+            # a second, independent cache created after the first one crossed
+            # its threshold (memory still permits for the smaller threshold)
+            pos2 = rng.randrange(pos + 1, len(ops) + 1)
+            ops.insert(pos2, ['second_cache', None])
     return ops
 
 
@@ -236,12 +244,7 @@ def run(case):
         Mem.available = 48 * GiB
         ctx = W.set_ctx(W.Ctx())
         try:
-            if case['source'] == 'dict':
-                src = lazy_dataset.new({'k%d' % i: {'src': i} for i in range(n)})
-            else:
-                src = lazy_dataset.new([{'src': i} for i in range(n)])
-            up = src.map(W.MapFn('u0')).map(
-                FreshLogFn('fresh') if case['fresh'] else W.MapFn('det'))
+            up = _upstream(case)
             m = Model(case)
             if case['eager']:
                 out = _run_eager(case, up, ctx, m)
@@ -253,6 +256,12 @@ def run(case):
             psutil.virtual_memory = saved
             W.set_ctx(None)
     fired = out['fired']
+    for mm in out.get('models', []):
+        if mm is not m:
+            m.probes.update(mm.probes)
+            if mm.violations and not m.violations:
+                m.violations = [dict(v, sig=v['sig'] + ':second_cache')
+                                for v in mm.violations]
     nontrivial = bool(m.probes.get('cache_hit_after_threshold') or fired.get('mem_low')
                       or out['hits'])
     return hist.outcome(
@@ -312,10 +321,51 @@ def _run_lazy(case, ds, ctx, m):
             m.access(i, nv, before, via)
         it.close() if hasattr(it, 'close') else None
 
+    held = None         # [iterator, next position, via]
+    models = [m]
     for op, arg in case['ops']:
         if m.violations:
             break
-        if op == 'mem_low':
+        if op == 'it_open':
+            if arg == 'items' and case['source'] != 'dict':
+                arg = 'ds'
+            src_ds = ds.copy() if arg == 'copy' else (ds.items() if arg == 'items' else ds)
+            held = [iter(src_ds), 0, arg]
+            fired['iterator_held_open'] += 1
+        elif op == 'it_next':
+            if held is not None and held[1] < n:
+                i = held[1]
+                held[1] += 1
+                m.absorb(ctx.log)
+                before = m.ncalls[i]
+                was_frozen = i in m.frozen
+                try:
+                    v = next(held[0])
+                except StopIteration:
+                    m.bad('iteration_too_short', 'iteration_too_short:held_iterator',
+                          'a held iterator ended before index %d' % i)
+                    break
+                m.absorb(ctx.log)
+                last_obj = v
+                if held[2] == 'items':
+                    v = v[1]
+                nv = W.norm(v)
+                trace.append(('held_iterator', i, nv))
+                if was_frozen:
+                    hits += 1
+                    m.probes['held_iterator_met_entry_cached_meanwhile'] = 1
+                m.access(i, nv, before, 'held_iterator')
+        elif op == 'second_cache':
+            held = None
+            up2 = _upstream(case)
+            ds = up2.cache(keep_mem_free='256 MiB')
+            m = Model(case)
+            m.pos = len(ctx.log)
+            models.append(m)
+            thr = 256 * 1024 ** 2
+            fired['second_cache_after_threshold'] += 1
+            m.probes['second_cache_created_after_first_crossed'] = 1
+        elif op == 'mem_low':
             Mem.available = thr if arg == 'equal' else thr / 4
             m.low = True
             m.was_low = True
@@ -358,7 +408,17 @@ def _run_lazy(case, ds, ctx, m):
                 _mutate(last_obj)
                 fired['client_mutation'] += 1
                 m.probes['mutation_then_reread'] = 1
-    return {'fired': dict(fired), 'hits': hits, 'trace': trace}
+    return {'fired': dict(fired), 'hits': hits, 'trace': trace, 'models': models}
+
+
+def _upstream(case):
+    n = case['n']
+    if case['source'] == 'dict':
+        src = lazy_dataset.new({'k%d' % i: {'src': i} for i in range(n)})
+    else:
+        src = lazy_dataset.new([{'src': i} for i in range(n)])
+    return src.map(W.MapFn('u0')).map(
+        FreshLogFn('fresh') if case['fresh'] else W.MapFn('det'))
 
 
 def _prefetch_iteration(case, ds, ctx, m, w, b, seed, flip, thr, fired, trace):
